@@ -1,5 +1,8 @@
 import ClaripyProofs.Lemmas.VSA.Balancer
 import ClaripyProofs.Lemmas.VSA.BalancerUnsat
+import ClaripyProofs.Lemmas.VSA.BalancerUnsatSigned
+import ClaripyProofs.Lemmas.VSA.BalancerNoLit
+import ClaripyProofs.Lemmas.VSA.BalancerSignedArms
 /-!
 # C25 — constraint_to_si never cuts off a satisfying assignment
 
@@ -157,7 +160,196 @@ theorem C25_unsat_sound (op : CmpOp) (a b : BV) (hoa : ExprOK anno env a) (hob :
     (h : doit anno (.cmp op a b) = .ok .unsat) : evalB env (.cmp op a b) ≠ some true :=
   doit_unsat_sound anno env hctx hnrm op a b hoa hob hwab hord hsym h
 
+/-! ### signed orderings (`SLT`, `SLE`, `SGT`, `SGE`)
+
+`_handle_comparison` records SIGNED integers for them (signed minimum / maximum of the left side, the signed value of the
+literal), `_replacements_iter` reduces them modulo `2^w`.  A lone signed bound is read with the unsigned default of the other
+side (`x <s 5` alone: `[0, 4]`), so the bound of the truism is only sound TOGETHER with the bound of its implicit assumption
+(`x >=s int_min`: lower bound `int_min`, i.e. `2^(w-1)`): the pair is the wrapped interval `[2^(w-1), 4]`. -/
+
+/-- what `_handle_comparison` records for a signed ordering: the signed extremes of the left side and the signed value of
+the literal (`cmpResS`) -/
+theorem C25_handle_signed_char (t : Tru) (bs bs' : Bounds) (hok : TruOK anno env t) (hop : sOrd t.op)
+    (h : handleCmp anno t bs = .ok bs') :
+    ∃ pl lmin lmax, convBV anno t.lhs [] = .ok pl ∧ siMin pl.1.si true = .ok lmin ∧ siMax pl.1.si true = .ok lmax ∧
+      bs' = cmpResS t bs lmin lmax :=
+  handleCmp_char_s anno env hctx hnrm t bs bs' hok hop h
+
+/-- **the signed pair**: a signed truism `T0` and its implicit assumption `A0`, both balanced only across `+` / `-` (or not
+changed at all) down to the same expression — exactly what `_doit` does with the two (`processTru`) — record a lower and an
+upper bound that, read as the wrapped interval `_replacements_iter` builds, contain the value under every assignment
+satisfying `T0` -/
+theorem C25_pair_sound_signed (T0 A0 : Tru) (p1 p2 : Bounds × BalOut) (hokT : TruOK anno env T0) (hop : sOrd T0.op)
+    (hconv : ∃ o p, convBV anno T0.lhs o = .ok p) (hhT : T0.holds env)
+    (hA : assumption T0 = some (.tru A0)) (h1 : processTru anno T0 [] = .ok p1) (h2 : processTru anno A0 p1.1 = .ok p2)
+    (hptT : p1.2.usedPt = false) (hptA : p2.2.usedPt = false) (hsame : p1.2.t.lhs = p2.2.t.lhs) : Sound env p2.1 := by
+  unfold processTru at h1 h2
+  obtain ⟨oT, hbT, h1⟩ := bindM_ok h1
+  obtain ⟨bs1, hh1, h1⟩ := bindM_ok h1
+  have := pureM_ok h1; subst this
+  obtain ⟨oA, hbA, h2⟩ := bindM_ok h2
+  obtain ⟨bs2, hh2, h2⟩ := bindM_ok h2
+  have := pureM_ok h2; subst this
+  exact pair_sound_s anno env hctx hnrm T0 A0 oT oA bs1 bs2 hokT hop hconv hhT hA hbT hbA hptT hptA hsame hh1 hh2
+
+/-- **composite, signed orderings**: if the model of `_doit` returns the bounds `bs` for `a OP b` (`SLT`, `SLE`, `SGT`, `SGE`,
+either side the literal) and the assignment satisfies the comparison, every recorded pair contains the value of its
+expression — when neither the truism nor its implicit assumption goes through an arm other than `+` / `-` and both end at
+the same expression (88 % of the signed inputs of the correspondence: 1440 of 1749 at seed 0) -/
+theorem C25_balancer_sound_signed (op : CmpOp) (a b : BV) (bs : Bounds) (info : PathInfo) (oT oA : BalOut)
+    (hoa : ExprOK anno env a) (hob : ExprOK anno env b) (hwab : wd a = wd b) (hord : sOrd op)
+    (hsym : ∀ r w, b = .const r w → symBV a = true)
+    (h : doit anno (.cmp op a b) = .ok (.sat bs info)) (hmain : info.main = some oT) (hassum : info.assum = some oA)
+    (hptT : oT.usedPt = false) (hptA : oA.usedPt = false) (hsame : oT.t.lhs = oA.t.lhs)
+    (hsat : evalB env (.cmp op a b) = some true) : Sound env bs :=
+  doit_pair_s anno env hctx hnrm op a b bs info oT oA hoa hob hwab hord hsym h hmain hassum hptT hptA hsame hsat
+
+/-- **the satisfiable flag, signed orderings** -/
+theorem C25_unsat_sound_signed (op : CmpOp) (a b : BV) (hoa : ExprOK anno env a) (hob : ExprOK anno env b) (hwab : wd a = wd b)
+    (hord : sOrd op) (hsym : ∀ r w, b = .const r w → symBV a = true)
+    (h : doit anno (.cmp op a b) = .ok .unsat) : evalB env (.cmp op a b) ≠ some true :=
+  doit_unsat_sound_s anno env hctx hnrm op a b hoa hob hwab hord hsym h
+
+/-- **the satisfiable flag, `==` / `!=`** — proved when the abstract values of the two sides are aligned (the guard of the
+abstract equality in C24); the full statement is `C25_unsat_sound_eqne_full` below -/
+theorem C25_unsat_sound_eqne_partial (op : CmpOp) (a b : BV) (hoa : ExprOK anno env a) (hob : ExprOK anno env b)
+    (hwab : wd a = wd b) (hop : op = .eq ∨ op = .ne)
+    (hal2 : ∀ p1 p2, convBV anno a [] = .ok p1 → convBV anno b p1.2 = .ok p2 → p1.1.si.Aligned ∧ p2.1.si.Aligned)
+    (h : doit anno (.cmp op a b) = .ok .unsat) : evalB env (.cmp op a b) ≠ some true :=
+  doit_unsat_sound_eqne anno env hctx hnrm op a b hoa hob hwab hop hal2 h
+
+/-! ### the arms on signed orderings
+
+`_balance_add` / `_balance_sub` (rotation, covered by the pair theorem above), `_balance_zeroext`, `_balance_signext`,
+`_balance_concat`, `_balance_and`, the scaling branch of `_balance_extract` and `_balance_lshift` with a shift by 0 accept the
+signed operators.  `_balance_zeroext` / `_balance_concat` are not meaning-preserving for them (witness below); what they keep
+is the UNSIGNED reading of the truism, and that is enough for the lone bound recorded afterwards. -/
+
+/-- `_balance_zeroext` on a signed ordering (`k ≥ 1` extension bits): unchanged, or the UNSIGNED reading of the new truism
+holds — whether the old truism held in its signed or in its unsigned reading -/
+theorem C25_step_signed_zext (t : Tru) (k : Nat) (e : BV) (hl : t.lhs = .zext k e) (hk : 0 < k) (hok : TruOK anno env t)
+    (hop : sOrd t.op) (hconv : ∃ p, convBV anno t.lhs [] = .ok p) (hh : t.holds env ∨ t.holdsU env)
+    (hs : symBV (balZext t k e).lhs = true) :
+    balZext t k e = t ∨ (TruOK anno env (balZext t k e) ∧ (balZext t k e).op = t.op ∧ (balZext t k e).holdsU env) :=
+  balZext_s anno env hctx hnrm t k e hl hk hok hop hconv hh hs
+
+/-- `_balance_concat` (known-zero high part) on a signed ordering: the same -/
+theorem C25_step_signed_concat (t t' : Tru) (a b : BV) (hl : t.lhs = .concat a b) (hok : TruOK anno env t) (hop : sOrd t.op)
+    (hconv : ∃ p, convBV anno t.lhs [] = .ok p) (hh : t.holds env ∨ t.holdsU env)
+    (h : balConcat anno t a b = .ok t') (hs : symBV t'.lhs = true) :
+    t' = t ∨ (TruOK anno env t' ∧ t'.op = t.op ∧ t'.holdsU env) :=
+  balConcat_s anno env hctx hnrm t t' a b hl hok hop hconv hh h hs
+
+/-- **`_handle_comparison` on a signed ordering whose UNSIGNED reading holds**: the lone signed bound it records, reduced
+modulo `2^w` and read with the unsigned default of the other side, contains the value -/
+theorem C25_handle_sound_signed_unsigned_reading (t : Tru) (bs' : Bounds) (hok : TruOK anno env t) (hop : sOrd t.op)
+    (hh : t.holdsU env) (h : handleCmp anno t [] = .ok bs') : Sound env bs' :=
+  handleCmp_U_lone anno env hctx hnrm t bs' hok hop hh h
+
+/-! ### without the hypothesis on the side facing a literal
+
+`hsym` above says: when `b` is a literal, `a` has a symbolic leaf.  The other case (two sides without a symbolic leaf, both of
+cardinality 1 from the concrete backend) is handled by the model as well: `_balance` never reaches a symbolic expression and
+`_handle` returns at cardinality 1, so nothing is recorded (`doit_nosym_nil`).  Inputs whose other side is neither a literal
+nor multi-valued make the model answer `unmodelled`, so `doit … = .ok …` excludes them. -/
+
+omit hctx hnrm in
+theorem sound_nil : Sound env [] := by intro e lo hi h; cases h
+
+theorem C25_balancer_sound_nolit (op : CmpOp) (a b : BV) (bs : Bounds) (info : PathInfo)
+    (hoa : ExprOK anno env a) (hob : ExprOK anno env b) (hwab : wd a = wd b) (hop : unsOp op = true)
+    (h : doit anno (.cmp op a b) = .ok (.sat bs info)) (hcov : CoveredPt op info)
+    (hsat : evalB env (.cmp op a b) = some true) : Sound env bs := by
+  by_cases hsym : ∀ r w, b = .const r w → symBV a = true
+  · exact C25_balancer_sound anno env hctx hnrm op a b bs info hoa hob hwab hop hsym h hcov hsat
+  · have : ∃ r w, b = .const r w ∧ symBV a = false := by
+      by_contra hc
+      apply hsym
+      intro r w hb
+      by_contra hs
+      exact hc ⟨r, w, hb, by simpa using hs⟩
+    obtain ⟨r, w, hb, hs⟩ := this
+    rw [doit_nosym_nil anno op a b bs info hs (by rw [hb]; rfl) h]
+    exact sound_nil env
+
+theorem C25_balancer_sound_pair_nolit (op : CmpOp) (a b : BV) (bs : Bounds) (oT oA : BalOut) (hoa : ExprOK anno env a)
+    (hob : ExprOK anno env b) (hwab : wd a = wd b) (hord : uOrd op)
+    (hma : ∀ r w, b = .const r w → isModLhs a = true) (hmb : ∀ r w, a = .const r w → isModLhs b = true)
+    (h : doit anno (.cmp op a b) = .ok (.sat bs ⟨some oT, some oA⟩))
+    (hptT : oT.usedPt = false) (hptA : oA.usedPt = false) (hsame : oT.t.lhs = oA.t.lhs)
+    (hsat : evalB env (.cmp op a b) = some true) : Sound env bs := by
+  by_cases hsym : ∀ r w, b = .const r w → symBV a = true
+  · exact C25_balancer_sound_pair anno env hctx hnrm op a b bs oT oA hoa hob hwab hord hsym hma hmb h hptT hptA hsame hsat
+  · have : ∃ r w, b = .const r w ∧ symBV a = false := by
+      by_contra hc
+      apply hsym
+      intro r w hb
+      by_contra hs
+      exact hc ⟨r, w, hb, by simpa using hs⟩
+    obtain ⟨r, w, hb, hs⟩ := this
+    rw [doit_nosym_nil anno op a b bs _ hs (by rw [hb]; rfl) h]
+    exact sound_nil env
+
+theorem C25_balancer_sound_signed_nolit (op : CmpOp) (a b : BV) (bs : Bounds) (info : PathInfo) (oT oA : BalOut)
+    (hoa : ExprOK anno env a) (hob : ExprOK anno env b) (hwab : wd a = wd b) (hord : sOrd op)
+    (h : doit anno (.cmp op a b) = .ok (.sat bs info)) (hmain : info.main = some oT) (hassum : info.assum = some oA)
+    (hptT : oT.usedPt = false) (hptA : oA.usedPt = false) (hsame : oT.t.lhs = oA.t.lhs)
+    (hsat : evalB env (.cmp op a b) = some true) : Sound env bs := by
+  by_cases hsym : ∀ r w, b = .const r w → symBV a = true
+  · exact C25_balancer_sound_signed anno env hctx hnrm op a b bs info oT oA hoa hob hwab hord hsym h hmain hassum hptT hptA
+      hsame hsat
+  · have : ∃ r w, b = .const r w ∧ symBV a = false := by
+      by_contra hc
+      apply hsym
+      intro r w hb
+      by_contra hs
+      exact hc ⟨r, w, hb, by simpa using hs⟩
+    obtain ⟨r, w, hb, hs⟩ := this
+    rw [doit_nosym_nil anno op a b bs info hs (by rw [hb]; rfl) h]
+    exact sound_nil env
+
 end
+
+/-- the step `_balance_zeroext` is NOT meaning-preserving on a signed operator: `ZeroExt(4, x) <s 9` (8 bits) is rewritten to
+`x <s 9` at 4 bits (9 is -7 there); `x = 0` satisfies the first and not the second, only the unsigned reading `x <u 9`
+survives.  Not a defect of the result: the bound recorded for `x` (`min(7, 7, -8) = -8`, read modulo 16 as 8) is sound, the
+real `constraint_to_si` answers `x ∈ [0, 8]` — `C25_handle_sound_signed_unsigned_reading` is the reason. -/
+theorem C25_zext_signed_not_meaning_preserving :
+    balStep (fun _ => SI.top 4) ⟨.slt, .zext 4 (.free 0 4), 9, 8⟩ = .ok ⟨.slt, .free 0 4, 9, 4⟩ ∧
+    concCmp .slt 8 0 9 = true ∧ concCmp .slt 4 0 9 = false ∧ concCmp (uOf .slt) 4 0 9 = true :=
+  zext_signed_not_meaning_preserving
+
+/-- the full per-step statement for signed orderings (NOT proved; proved: `+` / `-` as rotations, `ZeroExt`, `Concat`): every
+arm other than `+` / `-` keeps "the truism holds in its signed or in its unsigned reading".  Missing: `_balance_signext`
+(same argument as `ZeroExt` with the sign bits known equal), `_balance_and`, the scaling branch of `_balance_extract`
+(value-preserving / order-preserving: both readings survive), `__lshift__` by 0. -/
+def C25_step_holds_signed_full : Prop :=
+  ∀ (anno : Nat → SI) (env : Nat → Nat), (∀ i, (anno i).WF ∧ (anno i).mem (env i)) → (∀ i, Nrm (anno i)) →
+    ∀ (ta t' : Tru), TruOK anno env ta → (∃ p, convBV anno ta.lhs [] = .ok p) → sOrd ta.op → isModLhs ta.lhs = false →
+      (ta.holds env ∨ ta.holdsU env) → balStep anno ta = .ok t' → symBV t'.lhs = true →
+      TruOK anno env t' ∧ t'.op = ta.op ∧ (t'.holds env ∨ t'.holdsU env)
+
+/-- the full composite for signed orderings (NOT proved; `C25_balancer_sound_signed` is the part where neither path uses an
+arm other than `+` / `-` and both end at the same expression): sound whenever no path combines a constant moved across
+`+` / `-` with another arm.  Missing beyond the steps above: a lone bound of a truism that still holds only in its SIGNED
+reading (e.g. the assumption `ZeroExt(k, e) >=s int_min`, whose path stops at once while the truism goes on to `e`) is
+sound only when the recorded lower bound is not negative / the value is known to be negative — for `ZeroExt` that needs the
+abstract value of the extension to have a non-negative signed minimum, which C24 (an over-approximation result) does not
+give.  Observed on the real code: 211 of the 1749 signed inputs of a quick run are of this kind, none fails. -/
+def C25_balancer_sound_signed_full : Prop :=
+  ∀ (anno : Nat → SI) (env : Nat → Nat), (∀ i, (anno i).WF ∧ (anno i).mem (env i)) → (∀ i, Nrm (anno i)) →
+    ∀ (op : CmpOp) (a b : BV) (bs : Bounds) (info : PathInfo), ExprOK anno env a → ExprOK anno env b → wd a = wd b →
+      sOrd op → doit anno (.cmp op a b) = .ok (.sat bs info) →
+      (∀ m, info.main = some m → ¬ (m.usedMod = true ∧ m.usedPt = true)) →
+      (∀ m, info.assum = some m → ¬ (m.usedMod = true ∧ m.usedPt = true)) →
+      (∀ m m', info.main = some m → info.assum = some m' → m.usedMod = m'.usedMod) →
+      evalB env (.cmp op a b) = some true → Sound env bs
+
+/-- the full statement for `==` / `!=` (not proved: the abstract equality is only proved sound on aligned operands, C24) -/
+def C25_unsat_sound_eqne_full : Prop :=
+  ∀ (anno : Nat → SI) (env : Nat → Nat), (∀ i, (anno i).WF ∧ (anno i).mem (env i)) → (∀ i, Nrm (anno i)) →
+    ∀ (op : CmpOp) (a b : BV), ExprOK anno env a → ExprOK anno env b → wd a = wd b → (op = .eq ∨ op = .ne) →
+      doit anno (.cmp op a b) = .ok .unsat → evalB env (.cmp op a b) ≠ some true
 
 /-- the last step of `_replacements_iter`: `convert(expr) ∩ SI(1, mn, mx)` contains the value when `convert(expr)` does
 (C24), is aligned and normal (what the meet needs, C22) and the recorded pair contains it -/
@@ -206,5 +398,25 @@ theorem test_covered_example :
     boundsOf (doit (fun _ => SI.top 4) coveredC) = some [(.free 0 4, some 0, some 5)] ∧
     infoOf (doit (fun _ => SI.top 4) coveredC) = some (false, false) := by
   decide
+
+/-- non-vacuity of the signed composite: `x + 3 <s 5` over a plain 4-bit `x` — the truism records the upper bound 1, its
+assumption `x + 3 >=s -8` the lower bound 5, both paths only move the constant, same final expression; the real
+`constraint_to_si` answers `[5, 1]` as well -/
+def signedC : BExp := .cmp .slt (.bin .add (.free 0 4) (.const 3 4)) (.const 5 4)
+def infoPt (r : M Res) : Option (Bool × Bool × Bool) :=
+  match r with
+  | .ok (.sat _ ⟨some m, some a⟩) => some (m.usedPt, a.usedPt, decide (m.t.lhs = a.t.lhs))
+  | _ => none
+
+set_option maxRecDepth 100000 in
+example : boundsOf (doit (fun _ => SI.top 4) signedC) = some [(.free 0 4, some 5, some 1)] ∧
+    infoPt (doit (fun _ => SI.top 4) signedC) = some (false, false, true) ∧
+    evalB (fun _ => 14) signedC = some true ∧ InB 4 (some 5) (some 1) 14 := by
+  decide
+
+/-- non-vacuity of the signed unsat theorem: `x <s -8` at 4 bits is reported unsatisfiable -/
+def unsatC : BExp := .cmp .slt (.free 0 4) (.const 8 4)
+set_option maxRecDepth 100000 in
+example : (match doit (fun _ => SI.top 4) unsatC with | .ok .unsat => true | _ => false) = true := by decide
 
 end Claripy.Props.C25
